@@ -4,7 +4,7 @@
    collections.defaultdict(list) as an association list) equal the model: after assigning a labelling, cluster k's member list
    is Model/Repop.members labels k - the ascending list of the points labelled k - for every K and every labelling.
    Closed under the global context. *)
-From Coq Require Import String ZArith List Bool Lia Arith.
+From Coq Require Import String ZArith List Bool Lia Arith Sorted.
 From Ticc Require Import Gen.PyRt Gen.G_model_state Model.Repop.
 Import ListNotations.
 
@@ -13,17 +13,219 @@ Definition state_of (K : nat) (labels : list nat) (mem : list (list nat)) : ms_s
   mk_ms_state (map Z.of_nat labels) (map (fun m => mk_ms_cluster (map Z.of_nat m)) mem) (mk_ms_args (Z.of_nat K)).
 Definition derived (K : nat) (labels : list nat) : list (list nat) := map (members labels) (seq 0 K).
 
-(* STATEMENTS (to be proved):
+(* ---- helper lemmas (copied from the sibling GenEquiv files / local) ---- *)
+Lemma py_getitem_nat {A : Type} (l : list A) (k : nat) (d : A) :
+  (k < length l)%nat -> py_getitem l (Z.of_nat k) = Ret (nth k l d).
+Proof.
+  intros Hk. unfold py_getitem, py_len. cbv zeta.
+  assert (E1 : (Z.of_nat k <? 0)%Z = false) by (apply Z.ltb_ge; lia).
+  assert (E2 : (Z.of_nat (length l) <=? Z.of_nat k)%Z = false) by (apply Z.leb_gt; lia).
+  rewrite E1. cbv iota. rewrite E1, E2. cbn [orb]. rewrite Nat2Z.id, (nth_error_nth' l d Hk). reflexivity.
+Qed.
+
+Lemma py_set_index_nat {A : Type} (l : list A) (k : nat) (v : A) :
+  (k < length l)%nat -> py_set_index l (Z.of_nat k) v = Ret (set_nth k v l).
+Proof.
+  intros Hk. unfold py_set_index, py_len. cbv zeta.
+  assert (E1 : (Z.of_nat k <? 0)%Z = false) by (apply Z.ltb_ge; lia).
+  assert (E2 : (Z.of_nat (length l) <=? Z.of_nat k)%Z = false) by (apply Z.leb_gt; lia).
+  rewrite E1. cbv iota. rewrite E1, E2. cbn [orb]. rewrite Nat2Z.id. reflexivity.
+Qed.
+
+Lemma set_nth_app_mid {A : Type} (pre : list A) (x v : A) (r : list A) :
+  set_nth (length pre) v (pre ++ x :: r) = pre ++ v :: r.
+Proof.
+  induction pre as [|a pre IH]; cbn [length app set_nth]; [reflexivity|]. now rewrite IH.
+Qed.
+
+Lemma combine_map_both {A B C D : Type} (f : A -> C) (g : B -> D) (l1 : list A) (l2 : list B) :
+  combine (map f l1) (map g l2) = map (fun ab => (f (fst ab), g (snd ab))) (combine l1 l2).
+Proof.
+  revert l2. induction l1 as [|a l1 IH]; intros [|b l2]; cbn [map combine fst snd]; try reflexivity.
+  f_equal. apply IH.
+Qed.
+
+Lemma py_enumerate_nat (labels : list nat) :
+  py_enumerate (map Z.of_nat labels)
+  = map (fun ip => (Z.of_nat (fst ip), Z.of_nat (snd ip))) (combine (seq 0 (length labels)) labels).
+Proof.
+  unfold py_enumerate, py_len. rewrite map_length, zrange_of_nat. apply combine_map_both.
+Qed.
+
+Lemma map_of_nat_inj (a b : list nat) : map Z.of_nat a = map Z.of_nat b -> a = b.
+Proof.
+  revert b. induction a as [|x a IH]; intros [|y b] H; cbn [map] in H; try discriminate; [reflexivity|].
+  injection H as Hx Hr. apply Nat2Z.inj in Hx. subst y. f_equal. apply IH. exact Hr.
+Qed.
+
+Lemma map_const_repeat {A B : Type} (c : B) (l : list A) : map (fun _ => c) l = repeat c (length l).
+Proof. induction l as [|a l IH]; cbn [map length repeat]; [reflexivity|]. now rewrite IH. Qed.
+
+(* ---- lists of ints: ==, sorted ---- *)
+Lemma py_list_eqb_eq (a b : list Z) : py_list_eqb a b = true -> a = b.
+Proof.
+  revert b. induction a as [|x a IH]; intros [|y b] H; cbn [py_list_eqb] in H; try discriminate; [reflexivity|].
+  apply andb_true_iff in H. destruct H as [Hx Hr]. apply Z.eqb_eq in Hx. subst y. f_equal. apply IH. exact Hr.
+Qed.
+
+Lemma py_list_eqb_refl (a : list Z) : py_list_eqb a a = true.
+Proof. induction a as [|x a IH]; cbn [py_list_eqb]; [reflexivity|]. now rewrite Z.eqb_refl, IH. Qed.
+
+Lemma py_insert_below (x : nat) (l : list nat) :
+  Forall (lt x) l -> py_insert (Z.of_nat x) (map Z.of_nat l) = map Z.of_nat (x :: l).
+Proof.
+  intros H. destruct l as [|y l]; cbn [map py_insert]; [reflexivity|].
+  inversion H as [|y' l' Hxy Hl]; subst.
+  assert (E : (Z.of_nat x <=? Z.of_nat y)%Z = true) by (apply Z.leb_le; lia).
+  rewrite E. reflexivity.
+Qed.
+
+Lemma py_sorted_ascending (l : list nat) :
+  Sorted.StronglySorted lt l -> py_sorted (map Z.of_nat l) = map Z.of_nat l.
+Proof.
+  intros H. induction H as [|x l Hs IH Hx]; [reflexivity|].
+  unfold py_sorted in *. cbn [map fold_right]. rewrite IH. apply py_insert_below. exact Hx.
+Qed.
+
+(* ---- members is ascending ---- *)
+Lemma filtered_enum_sorted (P : nat * nat -> bool) (l : list nat) (a : nat) :
+  Sorted.StronglySorted lt (map fst (filter P (combine (seq a (length l)) l)))
+  /\ Forall (le a) (map fst (filter P (combine (seq a (length l)) l))).
+Proof.
+  revert a. induction l as [|x l IH]; intros a; cbn [length seq combine filter map].
+  - split; constructor.
+  - destruct (IH (S a)) as [Hs Hf].
+    assert (Hf' : Forall (le a) (map fst (filter P (combine (seq (S a) (length l)) l)))).
+    { eapply Forall_impl; [|exact Hf]. intros p Hp. cbv beta in Hp. lia. }
+    destruct (P (a, x)); cbn [map fst].
+    + split.
+      * constructor; [exact Hs|]. eapply Forall_impl; [|exact Hf]. intros p Hp. cbv beta in Hp. lia.
+      * constructor; [lia | exact Hf'].
+    + split; [exact Hs | exact Hf'].
+Qed.
+
+Lemma members_sorted (labels : list nat) (k : nat) : Sorted.StronglySorted lt (members labels k).
+Proof. unfold members. apply filtered_enum_sorted. Qed.
+
+(* ---- collections.defaultdict(list) ---- *)
+Lemma py_ddict_get_append_same {V : Type} (d : list (Z * list V)) (k : Z) (v : V) :
+  py_ddict_get (py_ddict_append d k v) k = (py_ddict_get d k ++ [v])%list.
+Proof.
+  unfold py_ddict_append. unfold py_ddict_get at 1. cbn [find fst snd]. rewrite Z.eqb_refl. reflexivity.
+Qed.
+
+Lemma find_filter_other {V : Type} (d : list (Z * V)) (k k' : Z) :
+  k' <> k -> find (fun kv => (fst kv =? k')%Z) (filter (fun kv => negb (fst kv =? k)%Z) d)
+             = find (fun kv => (fst kv =? k')%Z) d.
+Proof.
+  intros Hne. induction d as [|[a b] d IH]; cbn [filter find fst]; [reflexivity|].
+  destruct (Z.eqb_spec a k) as [E|E]; cbn [negb find fst].
+  - subst a. destruct (Z.eqb_spec k k') as [E'|E']; [congruence | exact IH].
+  - destruct (a =? k')%Z; [reflexivity | exact IH].
+Qed.
+
+Lemma py_ddict_get_append_other {V : Type} (d : list (Z * list V)) (k k' : Z) (v : V) :
+  k' <> k -> py_ddict_get (py_ddict_append d k v) k' = py_ddict_get d k'.
+Proof.
+  intros Hne. unfold py_ddict_append. unfold py_ddict_get at 1. cbn [find fst].
+  destruct (Z.eqb_spec k k') as [E|E]; [congruence|].
+  unfold py_ddict_get. rewrite find_filter_other by exact Hne. reflexivity.
+Qed.
 
 (* 1. the member_points setter stores the sorted list (an ascending list is stored as it is), the empty list for an empty one *)
 Theorem g_member_points_setter_sorted (old new : list nat) :
   Sorted.StronglySorted lt new ->
   g_member_points_setter (mk_ms_cluster (map Z.of_nat old)) (map Z.of_nat new) = Ret (mk_ms_cluster (map Z.of_nat new)).
+Proof.
+  intros Hs. unfold g_member_points_setter.
+  destruct new as [|x new].
+  - reflexivity.
+  - assert (E : (py_len (map Z.of_nat (x :: new)) =? 0)%Z = false).
+    { apply Z.eqb_neq. unfold py_len. cbn [map length]. lia. }
+    rewrite E. cbn [mc__member_points].
+    destruct (py_list_eqb (map Z.of_nat (x :: new)) (map Z.of_nat old)) eqn:El; cbn [negb bind].
+    + apply py_list_eqb_eq in El. rewrite <- El. reflexivity.
+    + unfold set_mc__member_points. rewrite py_sorted_ascending by exact Hs. reflexivity.
+Qed.
+
+Lemma g_member_points_setter_nil (c : ms_cluster) : g_member_points_setter c [] = Ret (mk_ms_cluster []).
+Proof. reflexivity. Qed.
+
+(* the defaultdict after the first loop over a processed list of (point, label) pairs *)
+Definition dd_inv (d : list (Z * list Z)) (done : list (nat * nat)) : Prop :=
+  forall k : nat, py_ddict_get d (Z.of_nat k) = map Z.of_nat (map fst (filter (fun ip => Nat.eqb (snd ip) k) done)).
+
+Lemma dd_loop (post : list (nat * nat)) : forall (done : list (nat * nat)) (d : list (Z * list Z)),
+  dd_inv d done ->
+  exists d', foldM (fun (members : list (Z * list Z)) '(point_id, cluster_id) =>
+                      let members := py_ddict_append members cluster_id point_id in Ret members)
+                   (map (fun ip : nat * nat => (Z.of_nat (fst ip), Z.of_nat (snd ip))) post) d = Ret d'
+             /\ dd_inv d' (done ++ post).
+Proof.
+  induction post as [|[p l] post IH]; intros done d Hinv; cbn [map foldM fst snd].
+  - exists d. rewrite app_nil_r. split; [reflexivity | exact Hinv].
+  - cbn [bind].
+    destruct (IH (done ++ [(p, l)]) (py_ddict_append d (Z.of_nat l) (Z.of_nat p))) as [d' [Hrun Hinv']].
+    + intros k. rewrite filter_app, map_app, map_app. cbn [filter snd].
+      destruct (Nat.eqb_spec l k) as [E|E].
+      * subst k. rewrite py_ddict_get_append_same, Hinv. reflexivity.
+      * rewrite py_ddict_get_append_other by lia. rewrite Hinv. cbn [map]. now rewrite app_nil_r.
+    + exists d'. split; [exact Hrun|]. rewrite <- app_assoc in Hinv'. exact Hinv'.
+Qed.
+
+Definition cl_of (m : list nat) : ms_cluster := mk_ms_cluster (map Z.of_nat m).
+
+Lemma cluster_loop (labels : list nat) (d : list (Z * list Z)) (L : list Z) (A : ms_args) :
+  (forall k : nat, py_ddict_get d (Z.of_nat k) = map Z.of_nat (members labels k)) ->
+  forall (rest : list (list nat)) (pre : list ms_cluster),
+  foldM (fun (self : ms_state) (cluster_id : Z) =>
+           let this_cluster_members := py_ddict_get d cluster_id in
+           t2_ <- py_getitem (ms_clusters self) cluster_id ;;
+           t3_ <- g_member_points_setter t2_ this_cluster_members ;;
+           t4_ <- py_set_index (ms_clusters self) cluster_id t3_ ;;
+           let self := set_ms_clusters self t4_ in Ret self)
+        (map Z.of_nat (seq (length pre) (length rest))) (mk_ms_state L (pre ++ map cl_of rest) A)
+  = Ret (mk_ms_state L (pre ++ map (fun k => cl_of (members labels k)) (seq (length pre) (length rest))) A).
+Proof.
+  intros Hd. induction rest as [|m rest IH]; intros pre; cbn [length seq map foldM].
+  - reflexivity.
+  - cbv zeta. cbn [ms_clusters].
+    assert (Hlt : (length pre < length (pre ++ cl_of m :: map cl_of rest))%nat).
+    { rewrite app_length. cbn [length]. lia. }
+    rewrite (py_getitem_nat _ _ (cl_of m)) by exact Hlt. cbn [bind].
+    rewrite app_nth2 by lia. rewrite Nat.sub_diag. cbn [nth].
+    rewrite Hd. unfold cl_of at 1. rewrite g_member_points_setter_sorted by apply members_sorted. cbn [bind].
+    rewrite py_set_index_nat by exact Hlt. cbn [bind].
+    rewrite set_nth_app_mid. unfold set_ms_clusters. cbn [ms__point_labels ms_arguments].
+    specialize (IH (pre ++ [mk_ms_cluster (map Z.of_nat (members labels (length pre)))])).
+    rewrite app_length in IH. cbn [length] in IH. rewrite Nat.add_1_r in IH.
+    rewrite <- !app_assoc in IH. cbn [app] in IH. exact IH.
+Qed.
 
 (* 2. _update_cluster_membership re-derives every cluster's member list from the labels, whatever the lists were before *)
 Theorem g_update_cluster_membership_eq (K : nat) (labels : list nat) (mem : list (list nat)) :
   length mem = K -> Forall (fun l => (l < K)%nat) labels ->
   g_update_cluster_membership (state_of K labels mem) = Ret (state_of K labels (derived K labels)).
+Proof.
+  intros Hmem Hall. unfold g_update_cluster_membership, state_of.
+  cbn [ms__point_labels ms_clusters ms_arguments ma_num_clusters orb].
+  destruct labels as [|l0 labels].
+  - cbn [map py_len length Z.of_nat Z.eqb].
+    rewrite (mapM_pure _ (fun _ => mk_ms_cluster [])) by (intros c _; apply g_member_points_setter_nil).
+    cbn [bind]. unfold set_ms_clusters. cbn [ms__point_labels ms_arguments]. f_equal. f_equal.
+    unfold derived. rewrite !map_map. cbn [members length seq combine filter map].
+    rewrite !map_const_repeat, seq_length, Hmem. reflexivity.
+  - assert (E : (py_len (map Z.of_nat (l0 :: labels)) =? 0)%Z = false).
+    { apply Z.eqb_neq. unfold py_len. cbn [map length]. lia. }
+    rewrite E. rewrite py_enumerate_nat.
+    destruct (dd_loop (combine (seq 0 (length (l0 :: labels))) (l0 :: labels)) [] []) as [d [Hrun Hinv]].
+    { intros k. reflexivity. }
+    cbv zeta in Hrun. cbv zeta. rewrite Hrun. cbn [bind]. rewrite zrange_of_nat.
+    pose proof (cluster_loop (l0 :: labels) d (map Z.of_nat (l0 :: labels)) (mk_ms_args (Z.of_nat K))
+                  (fun k => Hinv k) mem []) as Hloop.
+    cbv zeta in Hloop. cbn [length app] in Hloop. fold (length mem) in Hloop. rewrite Hmem in Hloop.
+    fold cl_of. rewrite Hloop. cbn [bind]. unfold derived. rewrite map_map. reflexivity.
+Qed.
 
 (* 3. assigning a labelling that differs from the stored one stores it and re-derives the membership at once;
       assigning the stored labelling again changes nothing *)
@@ -31,8 +233,22 @@ Theorem g_point_labels_setter_eq (K : nat) (old new : list nat) (mem : list (lis
   length mem = K -> Forall (fun l => (l < K)%nat) new ->
   g_point_labels_setter (state_of K old mem) (map Z.of_nat new)
   = Ret (if list_eq_dec Nat.eq_dec new old then state_of K old mem else state_of K new (derived K new)).
-*)
+Proof.
+  intros Hmem Hall. unfold g_point_labels_setter.
+  change (ms__point_labels (state_of K old mem)) with (map Z.of_nat old).
+  destruct (list_eq_dec Nat.eq_dec new old) as [Heq|Hne].
+  - subst new. rewrite py_list_eqb_refl. reflexivity.
+  - destruct (py_list_eqb (map Z.of_nat new) (map Z.of_nat old)) eqn:El.
+    + apply py_list_eqb_eq, map_of_nat_inj in El. contradiction.
+    + cbn [negb].
+      change (set_ms__point_labels (state_of K old mem) (map Z.of_nat new)) with (state_of K new mem).
+      rewrite g_update_cluster_membership_eq by assumption. reflexivity.
+Qed.
 
 Eval vm_compute in g_point_labels_setter (state_of 3 [0;0;0] [[0;1;2];[];[]]) (map Z.of_nat [2;0;2;1;0]).
 Eval vm_compute in state_of 3 [2;0;2;1;0] (derived 3 [2;0;2;1;0]).
 Eval vm_compute in g_update_cluster_membership (state_of 2 [] [[4;1];[7]]).
+
+Print Assumptions g_member_points_setter_sorted.
+Print Assumptions g_update_cluster_membership_eq.
+Print Assumptions g_point_labels_setter_eq.
